@@ -6,6 +6,10 @@ VERIF = os.path.dirname(os.path.dirname(os.path.abspath(__file__)))
 TECH = "deterministic simulation with fault injection"
 
 CHECKS = {
+ "C03": dict(cat="exploration", ref="5 C03",
+   text="generated probe streams (random, constant fills, static prefixes + garbage, look-alikes, bit-flipped genuine flights of registered clients, threshold lengths) under generated segmentation, pacing and prober behaviour against the real connection handler, transports and registry; monitors: no byte written, no return before 5 s / after 10 s, handler keeps reading; every run is repeated as a twin with random content and must react identically",
+   note="trusted: simnet, synctest clock, seamgen overlay; the accept loop / original-destination lookup of handleNewConn is re-implemented by the harness; input space is sampled",
+   tech=TECH + " (simulated TCP segmentation/pacing/clock, seeded search, differential twin run)"),
  "C05": dict(cat="fault_enumeration", ref="5 C05",
    text="every single fault (connection end x operation kind x operation index < 6 x error shape, plus dial failures) over eight relay workloads is enumerated against the real Proxy/halfPipe under simulator-chosen I/O interleavings; pairs of faults and generated workloads are sampled (thorough: pairs enumerated for three workloads)",
    note="trusted: simnet's model of TCP errors (OpError/SyscallError shapes), the synctest fake clock, the seamgen overlay; interleavings are sampled, not enumerated",
@@ -14,6 +18,10 @@ CHECKS = {
    text="all histories up to length 5 (thorough 6) over a 10-operation alphabet are enumerated and long random histories sampled against the real registry under the simulated clock, compared after every step with an expiry reference model",
    note="trusted: synctest fake clock; the reference model (30 lines) written from the property text; ages within 1 ms of a threshold are don't-cares",
    tech=TECH + " (simulated clock, history enumeration + seeded search, reference model)"),
+ "C20": dict(cat="fault_enumeration", ref="5 C20", engine="ptracefi",
+   text="a real child process built from the current pkg/client/assets performs seeded store sequences under ptrace; for a fixed set of sequences every file-system syscall stop point is enumerated with kill-at-entry, kill-at-exit, torn write + kill, each errno and short write; the directory is then loaded by a fresh process and compared byte-for-byte with the old/new configuration, and the in-memory rollback is checked",
+   note="trusted: the ptrace tracer's syscall classification (x86-64), determinism of the child's file-system syscall sequence (verified per sequence by three reference runs); power loss / page-cache durability is not modelled (the property speaks of process crash, kill or write failure)",
+   tech=TECH + " (crash-point and syscall-error enumeration on a real process via ptrace)"),
  "C13": dict(cat="exploration", ref="5 C13",
    text="all schedules with at most 2 preemptions at lock operations for six small request/reload scenarios are enumerated, larger ones sampled, on the real RegProcessor with emulated RWMutex semantics (writer preference); deadlock is decided from the wait-for graph, old-or-new-in-full from the returned addresses",
    note="trusted: the lock emulation's fidelity to sync.RWMutex; code between two lock operations runs atomically (unlocked shared accesses are not interleaved)",
